@@ -785,11 +785,18 @@ impl MasterSession {
             .send_link_status_request(io, self.decode_level, destination)
             .await?;
 
+        // the deadline is fixed when the request is sent: events that wake the loop below must not extend it
+        let deadline = self
+            .associations
+            .get_timeout(destination.link)?
+            .deadline_from_now();
+
         loop {
+            // fails the task if the association was removed while waiting
             let timeout = self.associations.get_timeout(destination.link)?;
             // Wait for something on the link
             tokio::select! {
-                _ = tokio::time::sleep_until(timeout.deadline_from_now()) => {
+                _ = tokio::time::sleep_until(deadline) => {
                     tracing::warn!("no response within timeout: {}", timeout);
                     return Err(TaskError::ResponseTimeout);
                 }
